@@ -9,8 +9,8 @@ vars == <<doc, meta, upds, phase>>
 Pick(S) == IF Sim THEN {RandomElement(S)} ELSE S
 ListLike == {6}
 Docs1 == {[fence |-> f, entries |-> <<[k |-> k, v |-> v]>>, term |-> t, body |-> b] :
-            f \in Pick(BOOLEAN), k \in Pick(1 .. Len(Keys)), v \in Pick(1 .. Len(Vals)), t \in Pick(1 .. 3), b \in Pick(1 .. Len(Bodies))}
-Init == /\ doc \in {[fence |-> f, entries |-> <<>>, term |-> t, body |-> b] : f \in Pick(BOOLEAN), t \in Pick(1 .. 3), b \in Pick(1 .. Len(Bodies))}
+            f \in Pick(BOOLEAN), k \in Pick(1 .. Len(Keys)), v \in Pick(1 .. Len(Vals)), t \in Pick(1 .. 4), b \in Pick(1 .. Len(Bodies))}
+Init == /\ doc \in {[fence |-> f, entries |-> <<>>, term |-> t, body |-> b] : f \in Pick(BOOLEAN), t \in Pick(1 .. 4), b \in Pick(1 .. Len(Bodies))}
         /\ meta = <<>> /\ upds = <<>> /\ phase = "build"
 AddEntry == /\ phase = "build" /\ Len(doc.entries) < MaxEntries
             /\ \E k \in Pick(1 .. Len(Keys)), v \in Pick(1 .. Len(Vals)) :
